@@ -3,7 +3,7 @@
 // Contracts for the deductive verifier in /verif (comment-only: adds no declarations).
 package certgen
 
-//@ use net asn1 errors
+//@ use net asn1 errors time ssh
 
 // ---- C10 / C11: the RFC 3779 address-block codec ---------------------------------------------------
 //@ func decodeIPV4AddressChoice
@@ -11,3 +11,10 @@ package certgen
 //@   nopanic @C10,C11
 //@   ensures ret1 == nil ==> 0 <= encodedBlock.BitLength && encodedBlock.BitLength <= 32      #C11.never-widen @C11
 //@   loop 1 (i int) invariant 0 <= i && i <= 4 && 8*(i-1) < encodedBlock.BitLength           #C11.decode-bound @C10,C11
+
+// ---- C03: validity window of SSH certificates -------------------------------------------------------
+//@ func GenSSHCertFileString
+//@   ensures err == nil ==> ule(cert.ValidAfter, cert.ValidBefore)                                       #C03.ssh-no-wrap @C03
+//@   ensures err == nil && duration >= 0 ==> ule(cert.ValidBefore - cert.ValidAfter, uint64(duration / time.Second) + 1)  #C03.ssh-window @C03 %90
+//@   ensures err == nil && duration < 0 ==> cert.ValidBefore == cert.ValidAfter                          #C03.ssh-negative @C03
+//@   ensures err == nil ==> cert.ValidAfter == uint64(nowNanos() / 1000000000)                           #C03.ssh-starts-now @C03
